@@ -21,7 +21,7 @@ from .number import Sym, SymError, active
 
 REPO_SRC = "/repo/src"
 
-_EXCLUDE_DEFAULT = ("spectrum.window", "spectrum.datasets")
+_EXCLUDE_DEFAULT = ("spectrum.window", "spectrum.datasets", "spectrum.errors")
 
 
 def import_spectrum():
@@ -105,6 +105,15 @@ class _ShadowMeta(type):
 
     def __call__(cls, *a, **kw):
         return cls._conv(*a, **kw)
+
+    def __eq__(cls, other):
+        return other is cls or other is cls._base
+
+    def __ne__(cls, other):
+        return not (other is cls or other is cls._base)
+
+    def __hash__(cls):
+        return hash(cls._base)
 
 
 def _conv_float(v=0.0):
